@@ -1,0 +1,125 @@
+//! Verification hooks. Compiled only with `--cfg ldap3_verif`; never part of a normal build.
+//!
+//! * a process-global event sink (`install`/`take`/`log`), a no-op until a harness installs it;
+//! * an in-process transport trait (`VerifIo`) for `LdapConnAsync::verif_from_io`;
+//! * thin wrappers exposing the message codec (`decode`/`encode`).
+
+use std::collections::{HashMap, HashSet};
+use std::fmt::Debug;
+use std::sync::Mutex;
+
+use bytes::BytesMut;
+use tokio::io::{AsyncRead, AsyncWrite};
+use tokio_util::codec::Encoder;
+
+use crate::controls::{Control, RawControl};
+use crate::protocol::LdapCodec;
+use crate::RequestId;
+use lber::structures::Tag;
+
+/// In-process transport: anything that reads and writes like a socket.
+pub trait VerifIo: AsyncRead + AsyncWrite + Unpin + Send + Debug {}
+impl<T: AsyncRead + AsyncWrite + Unpin + Send + Debug> VerifIo for T {}
+
+struct Sink {
+    seq: u64,
+    lines: Vec<String>,
+}
+
+static SINK: Mutex<Option<Sink>> = Mutex::new(None);
+
+/// Start recording events (drops anything recorded before).
+pub fn install() {
+    *SINK.lock().unwrap_or_else(|e| e.into_inner()) = Some(Sink {
+        seq: 0,
+        lines: Vec::new(),
+    });
+}
+
+/// Stop recording and return the recorded ndjson lines.
+pub fn take() -> Vec<String> {
+    match SINK.lock().unwrap_or_else(|e| e.into_inner()).take() {
+        Some(s) => s.lines,
+        None => Vec::new(),
+    }
+}
+
+/// Drain recorded lines without stopping the recording.
+pub fn drain() -> Vec<String> {
+    match SINK.lock().unwrap_or_else(|e| e.into_inner()).as_mut() {
+        Some(s) => std::mem::take(&mut s.lines),
+        None => Vec::new(),
+    }
+}
+
+/// Number of events recorded so far (0 if no sink is installed).
+pub fn seq() -> u64 {
+    match SINK.lock().unwrap_or_else(|e| e.into_inner()).as_ref() {
+        Some(s) => s.seq,
+        None => 0,
+    }
+}
+
+/// Record one event; `body` is the inside of a JSON object without braces, e.g. `"ev":"X","id":1`.
+/// The sequence number is assigned under the sink lock.
+pub fn log(body: &str) {
+    if let Some(s) = SINK.lock().unwrap_or_else(|e| e.into_inner()).as_mut() {
+        s.seq += 1;
+        s.lines.push(format!("{{\"seq\":{},{}}}", s.seq, body));
+    }
+}
+
+fn sorted<I: Iterator<Item = RequestId>>(it: I) -> String {
+    let mut v: Vec<RequestId> = it.collect();
+    v.sort_unstable();
+    let s: Vec<String> = v.iter().map(|x| x.to_string()).collect();
+    format!("[{}]", s.join(","))
+}
+
+pub(crate) fn keys<V>(m: &HashMap<RequestId, V>) -> String {
+    sorted(m.keys().copied())
+}
+
+pub(crate) fn set(s: &HashSet<RequestId>) -> String {
+    sorted(s.iter().copied())
+}
+
+/// Allocator event, called with the `msgmap` lock held.
+pub(crate) fn id_event(ev: &str, id: RequestId, last_before: RequestId, site: &str) {
+    log(&format!(
+        "\"ev\":\"{}\",\"id\":{},\"lastb\":{},\"site\":\"{}\"",
+        ev, id, last_before, site
+    ));
+}
+
+/// Driver event with the post-state snapshot of the three routing tables.
+#[allow(clippy::too_many_arguments)]
+pub(crate) fn drv_event(
+    ev: &str,
+    id: RequestId,
+    kind: &str,
+    target: i64,
+    flag: bool,
+    used: &str,
+    res: &str,
+    sea: &str,
+) {
+    log(&format!(
+        "\"ev\":\"{}\",\"id\":{},\"k\":\"{}\",\"tg\":{},\"ok\":{},\"s\":{{\"used\":{},\"res\":{},\"sea\":{}}}",
+        ev, id, kind, target, flag, used, res, sea
+    ));
+}
+
+/// `protocol::decode_inner` on a caller-supplied buffer.
+#[allow(clippy::type_complexity)]
+pub fn decode(buf: &mut BytesMut) -> std::io::Result<Option<(RequestId, (Tag, Vec<Control>))>> {
+    crate::protocol::verif_decode(buf)
+}
+
+/// The message encoder on a caller-supplied request.
+pub fn encode(id: RequestId, tag: Tag, controls: Option<Vec<RawControl>>) -> std::io::Result<BytesMut> {
+    let mut codec = LdapCodec {};
+    let mut out = BytesMut::new();
+    codec.encode((id, tag, controls), &mut out)?;
+    Ok(out)
+}
